@@ -77,7 +77,65 @@ def run(ctx):
             r2.violate(fn.id, "decoder-reset", "the decoder is neither reset nor replaced when a new file is prepared: after the end-of-input drain "
                        "csv_core stays in its End state (and partial-record state of the previous file leaks into the next)", rec["file"], rec["line"])
     res.append(r2)
+    res.append(rule_eofonly(facts))
     return res
+
+
+def _is_empty_input(fn, op, at):
+    """the operand is `&[]` / `b""`: a promoted empty array (possibly unsized to a slice)"""
+    o = fn.origin(op, at=at)
+    if o[0] == "const":
+        k = o[1]
+        return k.get("k") == "promoted" and k.get("ty", "").replace(" ", "") in ("&[u8;0]",) or (k.get("k") == "c" and k.get("ty", "").replace(" ", "") == "&[u8;0]")
+    return False
+
+
+def _from_read(fn, op, at):
+    if op[0] not in ("c", "m"):
+        return False
+    o = fn.origin(op, at=at, through_calls=("::branch", "::unwrap", "::expect"))
+    return o[0] == "call" and "read" in o[1].name.rsplit("::", 1)[-1]
+
+
+def rule_eofonly(facts):
+    """The dual of C17-EOF: csv_core treats empty input as END OF DATA and completes the record in progress. Feeding it empty
+    input where the end of the file has not been observed (e.g. after a fixed-size sample) turns a record cut by the buffer
+    boundary into a complete, shorter record. Every decode call with constant empty input therefore sits behind a branch on the byte
+    count some read returned."""
+    from .mir import switch_edges
+    r = RuleResult("C17-EOFONLY", "the end-of-input signal (decode with empty input) is only issued behind a branch on the byte count a read returned", floor=1)
+    n_dec = 0
+    for rec in facts.all_fns(["glaredb_ext_csv"]):
+        if "CsvDecoder::decode" not in str(rec["bbs"]):
+            continue
+        fn = Fn(rec)
+        for c in fn.calls():
+            if not c.name.endswith("CsvDecoder::decode") or len(c.args) < 2:
+                continue
+            n_dec += 1
+            if not _is_empty_input(fn, c.args[1], c.bb):
+                continue
+            r.functions.add(fn.id)
+            r.call_sites += 1
+            ok = False
+            for b in range(fn.n):
+                t = fn.term(b)
+                if t[0] != "switch" or t[1][0] not in ("c", "m"):
+                    continue
+                on_count = _from_read(fn, t[1], b)
+                if not on_count:
+                    for s_ in fn.bbs[b]["s"]:
+                        if s_[0] == "a" and s_[1] == [t[1][1][0], []] and s_[2][0] == "bin" and s_[2][1] in ("Eq", "Ne", "Lt", "Le", "Gt", "Ge"):
+                            on_count = _from_read(fn, s_[2][2], b) or _from_read(fn, s_[2][3], b)
+                if on_count and any(fn.edge_dominates(b, tgt, c.bb) for _v, tgt in switch_edges(t)):
+                    ok = True
+                    break
+            r.inst({"fn": fn.id, "line": c.line, "behind_branch_on_read_count": ok}, ok)
+            if not ok:
+                r.violate(fn.id, "end-of-input-without-eof", f"CsvDecoder::decode is given empty input (csv_core's end-of-data signal) at line {c.line} without a "
+                          "branch on what a read returned: a record cut off by the buffer boundary is completed as if the file ended there", rec["file"], c.line)
+    r.notes.append(f"{n_dec} decode call sites examined")
+    return r
 
 CLAIM = {
     "text": "Must-pass-through on the MIR of CsvReader::poll_pull (decoder called on every path to `stream_exhausted: true`) and a "
